@@ -135,6 +135,46 @@ Proof.
   destruct r as [[]|code| |]; auto. destruct P as (M1 & N1). apply IH; auto.
 Qed.
 
+Lemma commit_attempt_MM w lr slot dst :
+  MM ms0 w [] -> NA w -> MM ms0 (fst (commit_attempt c w lr slot dst)) [] /\ NA (fst (commit_attempt c w lr slot dst)).
+Proof.
+  intros HM HN. unfold commit_attempt.
+  destruct (get_block w lr dst) as [b|] eqn:Hgb; [|auto].
+  destruct (get_block_in _ _ _ _ Hgb) as (l & Hg & Hb & Hbid).
+  pose proof (sm_sub_M ms0 (v_m w) (bk_mem b) (bk_sm b) (proj2 HM) (mi_blocks _ _ (proj1 HM) _ _ _ Hg Hb)) as Psub.
+  destruct (sm_sub (v_m w) (bk_mem b) (bk_sm b)) as (m1 & s1).
+  assert (Pmap : forall m2 s2 (mr : out unit),
+            (if a_persist (get_alloc w (Z.of_nat slot)) then sm_map c m1 (bk_mem b) s1 else (m1, s1, OK tt)) = (m2, s2, mr) ->
+            sm_post ms0 (v_m w) (bk_mem b) m2 s2).
+  { intros m2 s2 mr E. destruct (a_persist _).
+    - pose proof (sm_map_M c ms0 m1 (bk_mem b) s1 (proj1 Psub) (proj1 (proj2 Psub))) as P. rewrite E in P.
+      eapply (VamMapStep.sm_post_trans c Hc Hmax Hlarge ms0); eauto.
+    - injection E as <- <- _. exact Psub. }
+  destruct (if a_persist (get_alloc w (Z.of_nat slot)) then sm_map c m1 (bk_mem b) s1 else (m1, s1, OK tt)) as ((m2 & s2) & mr) eqn:Emap.
+  specialize (Pmap _ _ _ eq_refl). cbn [fst].
+  set (b2 := mkBlock (bk_id b) (bk_mem b) s2 (bk_meta b)).
+  assert (Hg2m : get_blist (set_m w m2) lr = Some l) by (rewrite get_blist_set_m; exact Hg).
+  split; [apply (MM_put_touch_NA w [] lr l b m2 s2 b2 HM HN Hg Hb Pmap); reflexivity|].
+  apply (NA_sub w); [exact HN| |].
+  - intros lr0 l0 G0. rewrite (put_block_eq _ _ _ _ Hg2m) in G0.
+    destruct (get_set_blist_cases (set_m w m2) lr l _ lr0 l0 Hg2m G0) as [(-> & ->)|(Hne & G)].
+    + exists l. split; [exact Hg|]. cbn. split; [apply replace_block_ids|]. intros b' Hb'.
+      destruct (replace_block_cases _ _ _ Hb') as [->|Hin]; [exists b; auto|exists b'; auto].
+    + rewrite get_blist_set_m in G. exists l0. split; [exact G|]. split; [reflexivity|]. intros b' Hb'. exists b'. auto.
+  - intros s a Sa Ka. unfold slot_is in *. rewrite put_block_tab in Sa. exact Sa.
+Qed.
+
+Lemma replay_MM log : forall w lr,
+  MM ms0 w [] -> NA w ->
+  let '(w', r) := replay_log c w lr log in match r with OK _ => MM ms0 w' [] | _ => True end.
+Proof.
+  induction log as [|[slot dst|mv] tl IH]; intros w lr HM HN; cbn [replay_log]; [exact HM| |].
+  - destruct (commit_attempt_MM w lr slot dst HM HN) as (M1 & N1). destruct (commit_attempt c w lr slot dst) as (w1 & r). cbn [fst] in *.
+    destruct r as [[]|code| |]; try exact I; apply IH; auto.
+  - pose proof (commit_move_MM w lr mv HM HN) as P. destruct (commit_move c w lr mv) as (w1 & r).
+    destruct r as [[]|code| |]; auto. destruct P as (M1 & N1). apply IH; auto.
+Qed.
+
 Lemma collect_list_MM v dc p :
   VamInv c v -> MM ms0 v [] ->
   let '(v', r) := collect_list c v dc p in match r with OK _ => MM ms0 v' [] | _ => True end.
@@ -142,7 +182,7 @@ Proof.
   intros HI HM. unfold collect_list.
   destruct (project v (dc_lr dc)) as [st|] eqn:Ep; [|exact I].
   destruct (get_blist v (dc_lr dc)) as [l|] eqn:Hg; [|exact I].
-  destruct (Defrag.collect_moves st (dc_ctx dc) p) as (cs & wr).
+  destruct (Defrag.collect_moves_f vam (att_commit c (dc_lr dc)) st (dc_ctx dc) p v) as (((cs & env) & log) & wr).
   set (bl' := Defrag.d_blocks (Defrag.cs_st cs)).
   set (l1 := set_blocks l (unproject_blocks (bl_blocks l) bl')). set (v1 := set_blist v (dc_lr dc) l1).
   assert (Hun : forall b1, In b1 (bl_blocks l1) -> exists b, In b (bl_blocks l) /\ bk_id b = bk_id b1 /\ bk_mem b = bk_mem b1 /\ bk_sm b = bk_sm b1).
@@ -158,7 +198,7 @@ Proof.
       + exists l0. split; [exact G|]. split; [reflexivity|]. intros b' Hb'. exists b'. auto.
     - intros s a Sa _. unfold slot_is, v1 in *. rewrite set_blist_tab in Sa. exact Sa. }
   destruct wr as [| |why]; [| |exact I];
-    (match goal with |- context [commit_moves c v1 ?lr ?ms] => pose proof (commit_moves_MM ms v1 lr M1 N1) as P; destruct (commit_moves c v1 lr ms) as (v2 & r) end;
+    (match goal with |- context [replay_log c v1 ?lr ?ms] => pose proof (replay_MM ms v1 lr M1 N1) as P; destruct (replay_log c v1 lr ms) as (v2 & r) end;
      destruct r as [[]|code| |]; auto).
 Qed.
 
